@@ -652,12 +652,12 @@ class Env:
                     pass
                 # bisect the variable whose halves bring the enclosure closest to the wanted sign: score = the worse of the two
                 # halves' lo/hi (sign +) resp. hi/lo (sign -), which is invariant under positive factors common to all terms
-                best, score = None, None
+                best, score, best_rel = None, None, 0.0
                 for a, (lo, hi) in bx.items():
                     w = hi - lo
                     if w <= 1e-9 * max(1.0, abs(lo), abs(hi)):
                         continue
-                    m_ = 0.5 * (lo + hi)
+                    m_ = math.sqrt(lo * hi) if (lo > 0 and hi / lo > 4.0) else 0.5 * (lo + hi)      # wide positive ranges split geometrically
                     sc = 0.0
                     try:
                         worst = None
@@ -674,13 +674,14 @@ class Env:
                         sc = worst
                     except S.IvUnknown:
                         sc = -2.0 + w / max(abs(lo), abs(hi), 1e-30) * 1e-3        # singular box: prefer the relatively widest variable
-                    if score is None or sc > score:
-                        best, score = a, sc
+                    rel = (hi / lo) if lo > 0 else 1.0 + w
+                    if score is None or sc > score + 1e-12 or (abs(sc - score) <= 1e-12 and rel > best_rel):
+                        best, score, best_rel = a, sc, rel
                 if best is None:
                     verdict = ("undecided", "box cannot be split further")
                     break
                 lo, hi = bx[best]
-                m_ = 0.5 * (lo + hi)
+                m_ = math.sqrt(lo * hi) if (lo > 0 and hi / lo > 4.0) else 0.5 * (lo + hi)
                 b1 = dict(bx); b1[best] = (lo, m_)
                 b2 = dict(bx); b2[best] = (m_, hi)
                 heapq.heappush(todo, (-vol(b1), next(tick), b1))
